@@ -3,7 +3,7 @@ CONSTANTS
   InsSeq <- Ins3
   Flushers = {"f"}
   Closer = "c"
-  Tables = {"t1", "t2"}
+  Tables = {"t1"}
   LocSeq <- Loc2
   FreeLocs = FALSE
   BatchSizes = {1, 2, 3}
